@@ -1861,6 +1861,11 @@ func (f *framer) readStringList() []string {
 }
 
 func (f *framer) readBytesInternal() ([]byte, error) {
+	if len(f.buf) < 4 {
+		// readInt would panic; this function is also called outside parseFrame's recover (Iter.readColumn)
+		return nil, fmt.Errorf("not enough bytes in buffer to read int require 4 got: %d", len(f.buf))
+	}
+
 	size := f.readInt()
 	if size < 0 {
 		return nil, nil
